@@ -223,6 +223,33 @@ theorem c_kmer_to_index_rc_sound (kmer : List UInt8) (h : kmer.length ≤ 32) :
   | none => rw [he] at hnw; simpa using hnw.symm
   | some v => rw [he] at hnw; simpa using hnw.symm
 
+/-- 9. The Python-level wrappers as written in the `.pyx`: reject `kmer.shape[0] > 32` before calling the C function, raise when
+the C function sets `exc`, and allocate output buffers of length `k` / `len(seq)`.  Together with theorems 1–5 this makes the
+modelled wrappers `GambitV.kmerToIndex` / `kmerToIndexRc` (guard 32) the meaning of the source text. -/
+theorem wrapper_facts :
+    Gen.kmerLenGuard = 32 ∧ Gen.kmerRcLenGuard = 32 ∧ Gen.kmerWrappersCanonical = true ∧
+    Gen.decodeWrapperCanonical = true ∧ Gen.revcompWrapperCanonical = true := by decide
+
+/-- the modelled wrapper is: guard, then the generated C function -/
+theorem kmerToIndex_eq_generated (kmer : List UInt8) :
+    kmerToIndex kmer =
+      (if kmer.length > Gen.kmerLenGuard then .error .tooLong
+       else if (Gen.c_kmer_to_index kmer).exc then .error .invalidChar else .ok (Gen.c_kmer_to_index kmer).ret.toNat) := by
+  unfold kmerToIndex
+  have hg : Gen.kmerLenGuard = 32 := by decide
+  rw [hg]
+  by_cases h : kmer.length > 32
+  · simp [h]
+  · simp only [h, if_false]
+    have hs := c_kmer_to_index_sound kmer (by omega)
+    simp only at hs
+    by_cases he : (Gen.c_kmer_to_index kmer).exc = true
+    · simp only [he, if_true] at hs ⊢
+      rw [hs]
+    · have he' : (Gen.c_kmer_to_index kmer).exc = false := by simpa using he
+      simp only [he', Bool.false_eq_true, if_false] at hs ⊢
+      rw [hs]
+
 /-! ### 8. Non-vacuity: the generated definitions evaluated on concrete inputs -/
 
 -- "ACGT" ↦ 27; lower case accepted
